@@ -36,6 +36,50 @@ def render(kinds, style):
     return files
 
 
+def render_wide(shape, n):
+    """type-level projects with n alternatives at every choice point"""
+    keys = ["kind", "type", "tag", "_t", "zed", "alpha"][:max(2, min(n, 6))]
+    if shape == "multidisc":
+        unions = []
+        for u in range(3):
+            members = []
+            for m in range(n):
+                members.append("{ " + "; ".join(f'{k}: "{k}{u}{m}"' for k in keys) + f"; v{m}: number }}")
+            unions.append(f"type U{u} = " + " | ".join(members) + ";")
+        body = "\n".join(unions) + "\ntype T = { a: U0; b: U1[]; c?: U2 };\n"
+        roots = ["T"]
+    elif shape == "nesteddisc":
+        inner = " | ".join("{ " + "; ".join(f'{k}: "{k}{m}"' for k in keys) + " }" for m in range(n))
+        body = f"type I = {inner};\ntype T = " + " | ".join(
+            "{ " + "; ".join(f'{k}: "o{k}{m}"' for k in keys) + "; inner: I }" for m in range(n)) + ";\n"
+        roots = ["T", "I"]
+    elif shape == "manyprops":
+        body = "type T = { " + "; ".join(f"p{(i * 7) % (3 * n)}_{i}: " + ["string", "number", '"l"', "{ q: 1 }", "string[]"][i % 5] for i in range(3 * n)) + " };\n"
+        roots = ["T"]
+    elif shape == "manyaliases":
+        body = "".join(f"type A{i} = {{ v{i}: {'A' + str(i + 1) if i + 1 < 2 * n else 'string'}; w: A{(i * 5 + 1) % (2 * n)}[] }};\n" for i in range(2 * n))
+        body += "type T = " + " | ".join(f"A{i}" for i in range(2 * n)) + ";\n"
+        roots = ["T"]
+    elif shape == "manyroots":
+        body = "".join(f"type R{i} = {{ k: \"r{i}\"; n: R{(i + 1) % (2 * n)} | null }};\n" for i in range(2 * n))
+        roots = [f"R{i}" for i in reversed(range(2 * n))]
+    elif shape == "manyenums":
+        body = "".join(f"enum E{i} {{ " + ", ".join(f'M{j} = "e{i}m{j}"' for j in range(n)) + " }\n" for i in range(n))
+        body += "type T = { " + "; ".join(f"e{i}: E{i}; m{i}: E{i}.M{i % n}" for i in range(n)) + " };\n"
+        roots = ["T"]
+    elif shape == "manygenerics":
+        body = "type G<X, Y> = { x: X; y: Y; next?: G<X, Y> };\n"
+        args = ["string", "number", "boolean", "null", '"a"', "1", "string[]", "{ z: 1 }"][:n + 2]
+        body += "type T = { " + "; ".join(f"g{i}: G<{a}, string>; h{i}: G<{a}, {args[(i + 1) % len(args)]}>" for i, a in enumerate(args)) + " };\n"
+        roots = ["T"]
+    else:  # intersections
+        body = "".join(f"type B{i} = {{ b{i}: number; shared: {' | '.join(repr(chr(97 + j)) for j in range(i, n + 1))} }};\n".replace("'", '"') for i in range(n))
+        body += "type T = " + " & ".join(f"B{i}" for i in range(n)) + ";\ntype U = " + " | ".join(f"(B{i} & {{ t: \"{i}\" }})" for i in range(n)) + ";\n"
+        roots = ["T", "U"]
+    call = "parse.buildParsers<{ " + ", ".join(f"{r}: {r}" for r in roots) + " }>();\n"
+    return [("entry.ts", body + call)]
+
+
 def digest(r):
     if r["outcome"] == "code":
         body = r["code"]
@@ -77,6 +121,18 @@ def run(prop, tier):
     for p in vlib.tagged_lines(gr["lines"], "PROJ"):
         projs.append({"origin": "generated", "kinds": p["kinds"], "style": p["style"], "files": render(p["kinds"], p["style"]),
                       "multifail": sum(1 for k in p["kinds"] if k in FAILING) >= 2})
+    cfgw = os.path.join(d, "MC_Determinism_wide.cfg")
+    vlib.write_cfg(cfgw, spec="WSpec", constants={"NExports": n}, invariants=["EmitWide"])
+    gw = vlib.run_tlc(cfgw, os.path.join(vlib.VERIF, "spec/mc/MC_Determinism.tla"), workers=4, heap="2g", tag="determinism-wide")
+    if not gw["ok"]:
+        raise ToolError("wide project generation failed:\n" + gw["tail"])
+    for p in vlib.tagged_lines(gw["lines"], "WIDE"):
+        projs.append({"origin": "generated", "kinds": [p["shape"], p["width"]], "style": "wide", "files": render_wide(p["shape"], p["width"]), "multifail": False})
+    # the programs of the type-generator families in which the compiler chooses among alternatives
+    import p_val
+    cases, gst = p_val.generate([("union", 1), ("disc", 1), ("object", 1)] if tier == "quick" else [("union", 2), ("disc", 2), ("object", 2), ("util", 1)], tag + "-gen")
+    for c in cases:
+        projs.append({"origin": "typegen", "name": vlib.ts(c.get("nty", c["ty"]))[:80], "files": [("entry.ts", vlib.render_program(c["env"], c.get("nty", c["ty"])))], "multifail": False})
     for c in corpus.programs():
         # corpus programs that are known to diverge (cyclic aliases) are excluded by C04's watchdog there; here skip hangs by timeout
         projs.append({"origin": "corpus", "name": c["name"], "files": list(c["files"]), "multifail": False})
@@ -141,9 +197,9 @@ def run(prop, tier):
                    "first_registration_order": firstr["_order"]}
         path = vlib.write_replay(prop, f"{tier}-{len(violations)}", payload)
         violations.append((path, f"{j['kind']}: {p.get('kinds') or p.get('name')} {p.get('style', '')}"))
-    cov = {"states": gr["distinct"] + tstates, "transitions": gr["states"] + consumed, "traces_validated_against_impl": consumed,
+    cov = {"states": gr["distinct"] + gw["distinct"] + gst["distinct"] + tstates, "transitions": gr["states"] + gw["states"] + gst["states"] + consumed, "traces_validated_against_impl": consumed,
            "samples": [{"files": projs[0]["files"], "orders": orders(projs[0]["files"])}],
-           "projects": len(projs), "generated_projects": sum(1 for p in projs if p["origin"] == "generated"),
+           "projects": len(projs), "typegen_projects": sum(1 for p in projs if p["origin"] == "typegen"), "generated_projects": sum(1 for p in projs if p["origin"] == "generated"),
            "processes": K, "compilations": len(recs), "known_findings_hit": sorted({k for k, _ in known_hits}),
            "binding_selftest": "rejected: output-differs-between-processes", "exhaustive": True,
            "rule": f"every project of Determinism.tla (all kind vectors of length {n} x 4 access styles) and every corpus program, compiled in "
